@@ -147,6 +147,10 @@ def impl(case):
             out += " ne-inconsistent"
         if (b == a) != eq:
             out += " asymmetric"
+        # equality is a fact about the two distributions: it cannot change once the operands have been hashed
+        hash(a), hash(b)
+        if (a == b) != eq or (a != b) != ne or (b == a) != eq:
+            out += " eq-changes-after-hashing"
         return out
     if k == "peq":
         p, b = P(*[C.dec_h(h) for h in case["dice"]]), C.dec_h(case["b"])
@@ -286,8 +290,20 @@ def _retype(rnd, items):
 
 
 def twin(rnd, a):
-    kind = rnd.choice(["scaled", "padded", "permuted", "retyped", "near", "scaled+padded", "random"])
+    kind = rnd.choice(["scaled", "padded", "permuted", "retyped", "near", "scaled+padded", "random", "collide", "bothpadded", "bigscaled"])
     b = [list(x) for x in a]
+    if kind == "collide":
+        # another distribution whose outcomes hash like a's in CPython (hash(-1) == hash(-2), hash(0) == hash(2**61 - 1))
+        x, y = rnd.choice([(-1, -2), (0, 2**61 - 1), (-2, -1)])
+        a[:] = [[o, c] for o, c in a if C.dec_out(o) not in (x, y)][:2] + [[C.enc_out(x), 1]]
+        b = [list(oc) for oc in a[:-1]] + [[C.enc_out(y), 1]]
+    if kind == "bothpadded":
+        # the same distribution padded with zero-count outcomes at DIFFERENT places (same length, same total)
+        a.insert(rnd.randint(0, len(a)), [C.enc_out(rnd.choice([-9, 17])), 0])
+        b.insert(rnd.randint(0, len(b)), [C.enc_out(rnd.choice([42, 99])), 0])
+    if kind == "bigscaled":
+        k = rnd.choice([2 * (2**60 + 1), 6 * 10**20 + 6, 2**70])
+        b = [[o, c * k] for o, c in b]
     if "scaled" in kind:
         k = rnd.choice([2, 3, 5])
         b = [[o, c * k] for o, c in b]
@@ -314,6 +330,7 @@ def generate(rnd, tier, scale):
         kind = rnd.choice(["int", "int", "neg", "frac", "float", "bool"])
         a = rnd.choice(cat) if rnd.random() < 0.3 else gen.rand_h(rnd, 4, kind, allow_zero_total=rnd.random() < 0.15, counts=(0, 1, 1, 2, 3, 4, 6))
         if r < 0.4:
+            a = [list(x) for x in a]  # twin() may rewrite a in place
             tk, b = twin(rnd, a)
             yield dict(k="eq", a=a, b=b, twin=tk)
         elif r < 0.5:
@@ -323,6 +340,10 @@ def generate(rnd, tier, scale):
             tk, b2 = twin(rnd, b)
             yield dict(k="peq", dice=dice, b=b2 if rnd.random() < 0.7 else b)
         elif r < 0.65:
+            if rnd.random() < 0.15 and a:
+                # a reduction by a common factor that leaves counts beyond 2**53
+                big = rnd.choice([2**60 + 1, 3**40, 10**18 + 9])
+                a = [[o, c * 2 * (big if i == 0 else 1)] for i, (o, c) in enumerate(a)]
             yield dict(k="lt", h=a)
         else:
             form = rnd.choice(["mapping", "pairs", "pairs", "outcomes", "h", "p", "int"])
